@@ -19,6 +19,7 @@ import (
 	"encoding/json"
 	"flag"
 	"fmt"
+	"io/ioutil"
 	"os"
 	"sort"
 	"strings"
@@ -55,6 +56,7 @@ func main() {
 		os.RemoveAll(scratchRoot())
 		return
 	}
+	sweepStale()
 	os.Setenv("C05_SCRATCH", fmt.Sprintf("/dev/shm/C05-%d", os.Getpid()))
 	defer os.RemoveAll(scratchRoot())
 
@@ -109,7 +111,7 @@ func runChain(r *vk.Run) {
 	var notExec, harness []string
 	results := make([]string, len(cases))
 	t0 := time.Now()
-	done := r.RunIsolated(len(cases), vk.IsoOpts{CaseTimeout: 240 * time.Second, MemKB: 8 * 1024 * 1024}, func(i int, raw json.RawMessage, fatal string) {
+	done := r.RunIsolated(len(cases), vk.IsoOpts{CaseTimeout: time.Duration(r.Pick(240, 600)) * time.Second, MemKB: 8 * 1024 * 1024}, func(i int, raw json.RawMessage, fatal string) {
 		c := cases[i]
 		if fatal != "" {
 			r.Violation("worker-died:"+strings.SplitN(fatal, ":", 2)[0], fmt.Sprintf("executing %s kills or hangs the process: %s", c.name(), fatal), map[string]interface{}{"state": c.st, "letters": c.letters, "case": i})
@@ -265,17 +267,27 @@ func runChain(r *vk.Run) {
 
 // replayCase re-runs the case recorded in a replay file in this process and prints its result.
 func replayCase(r *vk.Run) {
-	var rp struct {
-		State    int    `json:"state"`
-		Letters  []int  `json:"letters"`
-		Scenario string `json:"scenario"`
-	}
+	var rp map[string]interface{}
 	r.LoadReplay(&rp)
-	if rp.Scenario != "" {
-		fmt.Println("schedule replays: run `/verif/check C05 --part sched` (the scenario and schedule are named in the replay file)")
+	ls, isChain := rp["letters"]
+	switch {
+	case rp["scenario"] != nil:
+		fmt.Println("schedule counterexamples are re-explored by `/verif/check C05 --part sched` (scenario, worker count and schedule are in the replay file)")
+		return
+	case !isChain:
+		fmt.Println("this counterexample belongs to the map-writer part: `/verif/check C05 --part ser`")
 		return
 	}
-	res := runBlockCase(blockCase{st: rp.State, letters: rp.Letters})
+	bc := blockCase{}
+	if st, ok := rp["state"].(float64); ok {
+		bc.st = int(st)
+	}
+	if l, ok := ls.([]interface{}); ok {
+		for _, x := range l {
+			bc.letters = append(bc.letters, int(x.(float64)))
+		}
+	}
+	res := runBlockCase(bc)
 	os.RemoveAll(scratchRoot())
 	bz, _ := json.MarshalIndent(res, "", " ")
 	fmt.Println(string(bz))
@@ -284,5 +296,26 @@ func replayCase(r *vk.Run) {
 			fmt.Printf("VIOLATION property=C05 replay=%s key=%s :: %s\n", r.ReplayPath, v.Key, v.What)
 		}
 		os.Exit(1)
+	}
+}
+
+// sweepStale removes the scratch directories of C05 runs whose process no longer exists (a run that ends through
+// vk.Fatalf or a kill cannot clean up after itself).
+func sweepStale() {
+	ents, err := ioutil.ReadDir("/dev/shm")
+	if err != nil {
+		return
+	}
+	for _, e := range ents {
+		var pid int
+		if !e.IsDir() {
+			continue
+		}
+		if k, _ := fmt.Sscanf(e.Name(), "C05-%d", &pid); k != 1 || pid == os.Getpid() {
+			continue
+		}
+		if _, err := os.Stat(fmt.Sprintf("/proc/%d", pid)); os.IsNotExist(err) {
+			os.RemoveAll("/dev/shm/" + e.Name())
+		}
 	}
 }
